@@ -159,6 +159,12 @@ theorem C16_partial_leader_updated (inner : Sess → Sess × Bool) (s : Sess) :
 theorem C16_partial_follower_same_verdict (inner : Sess → Sess × Bool) (s₁ s₂ : Sess) :
     (mutatingSF inner (.follower (mutatingSF inner .leader s₁).2) s₂).2 = (inner s₁).2 := rfl
 
+/-- … and its own session comes back exactly as it went in — every field, the hard lifetime deadline included: whatever the
+executed call learnt about the *leader's* session is never written into another caller's (two sessions of one user share
+tokens, and therefore coalescing keys, but not lifetimes, hosts or groups). -/
+theorem C16_follower_session_untouched (inner : Sess → Sess × Bool) (r : Bool) (s : Sess) :
+    (mutatingSF inner (.follower r) s).1 = s := rfl
+
 /-- … but **not** the session updates (new deadlines, groups, token, grace start). Full-strength C16
 (last sentence) is refuted by this model, which the correspondence check shows is what the code does:
 KNOWN FINDING `sf-follower-session`. -/
